@@ -156,7 +156,10 @@ def spec_renderinv():
     return [('render_inv_format_expand', qr.InventoryRenderer.__dict__['format'],
              f'{q}.format: its first statement `if self.expand: ...; return strings` (the expanded layout)'),
             ('render_inv_update_loop', qr.InventoryRenderer.__dict__['update'],
-             f'{q}.update: its first statement, the loop `for pos in value.get_positions(): self.renderers[...].update(pos)`')]
+             f'{q}.update: its first statement, the loop `for pos in value.get_positions(): self.renderers[...].update(pos)`'),
+            ('render_inv_prepare_expand', qr.InventoryRenderer.__dict__['prepare'],
+             f'{q}.prepare: `if self.expand: self.maxwidth = self.renderers[self.expand].prepare()` (without the else branch and '
+             'without the final `return super().prepare()`)')]
 
 
 class InvGroup:
@@ -165,7 +168,8 @@ class InvGroup:
         refs = py2mini.Refs()
         defs, info = [], {}
         for name, fn, origin in spec:
-            tr = (InvUpdateTranslator if fn.__name__ == 'update' else InvTranslator)(fn, refs, prims=prims)
+            cls = {'update': InvUpdateTranslator, 'prepare': InvPrepareTranslator}.get(fn.__name__, InvTranslator)
+            tr = cls(fn, refs, prims=prims)
             term, defaults = tr.translate()
             defs.append((name, origin, term, defaults))
             info[name] = {'origin': origin, 'lines': sum(len(ast.unparse(s).splitlines()) for s in tr.fd.body) + 1}
